@@ -63,6 +63,8 @@ class Prop:
                       "attr": r.choice(["x", "y", "p_a", "p_pa", "q_b", "q_pb"]), "v": ctr[0]}
             elif x < 0.66:
                 op = {"k": "swap", "cand": r.randrange(ncand)}
+                if r.random() < 0.3:
+                    op["via_none"] = True      # parent = None on the way to the next delegate
             elif x < 0.72:
                 op = r.choice([{"k": "swap_mid", "mid": r.randrange(nmid)},
                                {"k": "swap_inner", "mid": r.randrange(nmid),
@@ -249,6 +251,10 @@ class Prop:
                         m.mids[kk]["local_my"] = v
                 elif k == "swap":
                     j = cand(op["cand"])
+                    if op.get("via_none"):
+                        _, e = sut(setattr, child, "parent", None)
+                        if e is not None:
+                            raise Violation("C11.assign-raised", "parent = None raised %r" % (e,), i)
                     _, e = sut(setattr, child, "parent", cands[j])
                     if e is not None:
                         raise Violation("C11.assign-raised", "swapping the delegate raised %r" % (e,), i)
